@@ -71,6 +71,9 @@ def acct_zero(a):
 
 
 def parse_group(op):
+    i = op.find(" #sz=")          # encoded sizes of the evaluated members (an input of the model's space accounting)
+    if i >= 0:
+        op = op[:i]
     rest = op[5:].strip()
     if not rest:
         return []
@@ -118,7 +121,7 @@ def walk(case):
             st["prev"] = st["cur"]
         elif op == "endblock":
             yield idx, "endblock", op, out, st
-            m = re.match(r"end payset=(\d+) ctr=(\d+) all=(\d+)$", out)
+            m = re.match(r"end payset=(\d+) ctr=(\d+) all=(\d+)(?: load=\d+)?$", out)
             st["last_all"] = int(m.group(3)) if m else None
         elif op == "dump":
             yield idx, "dump", op, out, st
@@ -175,7 +178,7 @@ def run(ctx, prop, profile, props_module, monitor, rule, replay_ops=None, extra_
             for t in g:
                 dist["txn:" + t[0]] = dist.get("txn:" + t[0], 0) + 1
             if g:
-                groups.add(o)
+                groups.add(o.split(" #sz=")[0])
         elif k == "block":
             lv = kv(o).get("level", "0")
             dist["block:level" + ("=0" if lv == "0" else ">0")] = dist.get("block:level" + ("=0" if lv == "0" else ">0"), 0) + 1
